@@ -92,3 +92,35 @@ Example C08_closed_nonvacuous :
   /\ List.length (ir_params C05Closed.w_closed) = 5.
 Proof. exact C05ClosedFacts.w_closed_in_dom. Qed.
 Print Assumptions C08_closed_nonvacuous.
+
+(* ================================================================== *)
+(* All seven kinds: function and method (conv_model7 / emit_model7 / closed_dom7, see props/C05Ext.v)                 *)
+(* ================================================================== *)
+(* For the function / method kinds the fixed point is derived relationally (the C08_fixpoint_relational pattern): the
+   conversion returns a description with the same summary and parameters, no return entry and no carried body, and
+   emit.function / to_docstring look at nothing else -- so converting it again is converting the original again.
+   The artefact compared is the function statement handed to ast.unparse. *)
+
+Theorem C08_conv_fixpoint7 : forall o f k i i1,
+    C05Closed.env_ok7 o = true -> C05Closed.closed_dom7 o f i = true ->
+    C05Closed.conv_model7 o f k i = Ok i1 -> C05Closed.conv_model7 o f k i1 = Ok i1.
+Proof. exact C05ClosedFacts.conv_model7_fixpoint. Qed.
+Print Assumptions C08_conv_fixpoint7.
+
+Theorem C08_closed7 : forall o f k i,
+    C05Closed.env_ok7 o = true -> C05Closed.closed_dom7 o f i = true -> C05Closed.C08_at7 o f k i.
+Proof. exact C05ClosedFacts.C08_closed7_lemma. Qed.
+Print Assumptions C08_closed7.
+
+Theorem C08_after_chain7 : forall o f cs k i,
+    C05Closed.env_ok7 o = true -> C05Closed.closed_dom7 o f i = true ->
+    exists i', C05Spec.chain (C05Closed.conv_model7 o f) cs i = Ok i' /\ C05Closed.C08_at7 o f k i'.
+Proof. exact C05ClosedFacts.C08_after_chain7. Qed.
+Print Assumptions C08_after_chain7.
+
+Example C08_closed7_nonvacuous :
+  C05Closed.env_ok7 C05Closed.default_env = true
+  /\ C05Closed.closed_dom7 C05Closed.default_env C05Closed.default_fenv C05Closed.w_closed = true
+  /\ C05Closed.closed_dom7 C05Closed.default_env (C05Closed.mkFE false false 1 false false) C05Closed.w_closed = true.
+Proof. exact C05ClosedFacts.w_closed_in_dom7. Qed.
+Print Assumptions C08_closed7_nonvacuous.
